@@ -88,6 +88,10 @@ func parseReport(blk string) []access {
 			}
 			// the access belongs to whichever of {repository, harness} owns the innermost frame among those two
 			// (frames of the standard library and of third-party packages in between are skipped)
+			if a.top == "" && strings.HasPrefix(fn, "verif/props/proto.CallerSerialises") {
+				// the harness in the caller's role: reading the result RunTraceroute returned is the caller's access
+				a.top, a.repo = "caller", "(the caller, reading the result it was returned)"
+			}
 			if a.top == "" && (strings.HasPrefix(fn, repoPrefix) || strings.HasPrefix(fn, "verif/")) {
 				a.top = fn
 				if j+1 < len(lines) {
@@ -225,6 +229,12 @@ func scenarios(tier string) []Scn {
 		r := proto.RTScn{Hostname: pr.h, Protocol: pr.p, Method: pr.m, MinTTL: 1, MaxTTL: 4, DelayMs: 10, TimeoutMs: 200, Queries: 2, E2e: 2, Dest: 3, PublicIP: "ok", IPIDBase: 1400, EchoBase: 140,
 			Faults: []simnet.Fault{{Op: "NewSink", K: 0, Class: "fatal"}}}
 		out = append(out, Scn{Kind: "rt", RT: &r, Bound: 2, Name: "request/" + pr.p + "-" + pr.m + "/every-run-and-probe-fails"})
+	}
+	{
+		// the public-IP lookup outlasts every run and probe by far (20 s); the caller serialises the result when the call
+		// returns and again 30 s later: nothing the request started may still be writing to it
+		r := proto.RTScn{Hostname: "203.0.113.77", Protocol: "udp", MinTTL: 1, MaxTTL: 3, DelayMs: 10, TimeoutMs: 200, Queries: 1, E2e: 1, Dest: 2, PublicIP: "slow", LingerMs: 30000, IPIDBase: 1400, EchoBase: 140}
+		out = append(out, Scn{Kind: "rt", RT: &r, Bound: 1, Name: "request/udp-/slow-public-ip-and-a-caller-that-keeps-reading"})
 	}
 	{
 		r := proto.RTScn{Hostname: "203.0.113.77", Protocol: "udp", MinTTL: 1, MaxTTL: 3, DelayMs: 10, TimeoutMs: 200, Queries: 1, E2e: 1, Dest: 2, ReverseDNS: true, IPIDBase: 1400, EchoBase: 140}
